@@ -77,6 +77,13 @@ func (l *sLeaser) ClusterID(ctx context.Context) (string, error) {
 		// election iteration after the primary role ended: nothing more to decide
 		l.postAcquire++
 		if l.postAcquire == 1 {
+			// nothing happened at the lease service between the check and the acquisition: the same answer
+			switch l.in.CID {
+			case "empty":
+				return "", nil
+			case "different":
+				return cidB, nil
+			}
 			return cidA, nil
 		}
 		return "", errors.New("script: over")
@@ -438,6 +445,7 @@ type pScript struct {
 	Event     string   `json:"event,omitempty"` // demote handoff-connected handoff-unconnected handoff-refused shutdown
 	Then      string   `json:"then,omitempty"`  // a second event 300 ms (or ThenAfter ms) after the first: demote shutdown
 	ThenAfter int      `json:"then_after_ms,omitempty"`
+	Storm     int      `json:"storm_ms,omitempty"` // the handoff request is repeated every so many ms for 5 s
 	Model     string   `json:"model"`       // the model's event list
 	WantEnd   int      `json:"want_end_ms"` // model: ms after the last successful renewal at which the role ends (0: not by renewal)
 }
@@ -514,6 +522,14 @@ func runPrimary(c *common.Ctx, cf *common.CaseFile, sc pScript, root string, idx
 			s.Demote()
 		case "handoff-connected", "handoff-refused", "handoff-unread":
 			handoffErr = s.Handoff(context.Background(), 0x77)
+			if sc.Storm > 0 {
+				go func() {
+					for t := time.Now(); time.Since(t) < 5*time.Second && s.IsPrimary(); {
+						time.Sleep(time.Duration(sc.Storm) * time.Millisecond)
+						_ = s.Handoff(context.Background(), 0x77)
+					}
+				}()
+			}
 		case "handoff-unconnected":
 			handoffErr = s.Handoff(context.Background(), 0x99)
 		case "shutdown":
@@ -812,6 +828,12 @@ func Run(c *common.Ctx) error {
 		{Name: "handoff-not-completed-then-shutdown", Renew: []string{"err"}, At: 200, Event: "handoff-connected", Then: "shutdown", Model: "PHandoff false true; PShutdown"},
 		// the target is connected but never takes the lease id: the attempt times out (5 s) and the node stays an ordinary primary
 		{Name: "handoff-unread-then-demote", At: 200, Event: "handoff-unread", Then: "demote", ThenAfter: 5600, Model: "PHandoff false true; PDemote"},
+		// the renewal made before the lease id is passed on reports the lease gone: the role ends there and then
+		{Name: "handoff-lease-gone", Renew: []string{"expired"}, At: 200, Event: "handoff-connected", Model: "PHandoffLeaseGone", WantEnd: 200},
+		// handoff requests keep arriving (each fails: the renewal before passing the lease on errors) while the scheduled
+		// renewals fail too: the requests do not postpone the renewals, the role ends by the loop's own arithmetic
+		{Name: "handoff-storm-renewals-failing", Renew: []string{"err", "err", "err", "err", "err", "err", "err", "err", "err", "err", "err", "err", "err", "err", "err", "err", "err", "err", "err", "err", "err", "err", "err", "err", "err", "err", "err", "err", "err", "err", "err", "err", "err", "err", "err", "err", "err", "err", "err", "err"},
+			At: 100, Event: "handoff-connected", Storm: 300, Model: "PHandoff true false; PRenewErr; PHandoff true false; PRenewErr", WantEnd: 3500},
 		{Name: "handoff-refused-then-expired", Renew: []string{"ok", "expired"}, At: 200, Event: "handoff-refused", Model: "PHandoff true false; PRenewOk; PRenewExpired", WantEnd: 1500},
 	}
 	var wg sync.WaitGroup
